@@ -60,7 +60,7 @@ type Sched struct {
 func (ex *Exec) runThreads() *pathAbort {
 	s := &Sched{toSched: make(chan *Thread)}
 	ex.sched = s
-	main := ex.newThread(&FuncV{Fn: ex.H.Fn}, nil)
+	main := ex.newThread(&FuncV{Fn: ex.H.Fn}, ex.H.Args)
 	res := ex.schedLoop(main)
 	// kill whatever is left
 	for _, th := range s.threads {
@@ -99,7 +99,11 @@ func (ex *Exec) newThread(fv *FuncV, args []Value) *Thread {
 			th.done = true
 			s.toSched <- th
 		}()
-		ex.callValue(th.fv, th.args)
+		r := ex.callValue(th.fv, th.args)
+		if th.id == 0 {
+			ex.H.Result = r
+			ex.H.Results = append(ex.H.Results, r)
+		}
 	}()
 	return th
 }
